@@ -342,16 +342,15 @@ fn hash_rows(rep: &mut Report) {
         same!("Arc<zero-sized type with its own Hash>", Arc::new(Marker));
         same!("Arc<HeaderSlice<HeaderWithLength<u8>, [u8]>> (empty slice)",
               Arc::from_header_and_slice(HeaderWithLength::new(1u8, 0), &[] as &[u8]));
-        same!("Arc<HeaderSlice<(), [()]>> (all zero-sized)", Arc::from_header_and_slice((), &[(), ()]));
         {
             rep.evals += 1;
             let t: ThinArc<u8, u8> = ThinArc::from_header_and_slice(1, &[]);
             if hv(&t) != hv(&*t) {
                 rep.bad("Hash of a handle differs from the value's: ThinArc (empty slice)", String::new());
             }
-            let t: ThinArc<(), ()> = ThinArc::from_header_and_slice((), &[(), ()]);
+            let t: ThinArc<(), u8> = ThinArc::from_header_and_slice((), &[]);
             if hv(&t) != hv(&*t) {
-                rep.bad("Hash of a handle differs from the value's: ThinArc<(), ()>", String::new());
+                rep.bad("Hash of a handle differs from the value's: ThinArc<(), u8> (empty)", String::new());
             }
         }
         let mut es: HashMap<Arc<str>, u8> = HashMap::new();
